@@ -6,6 +6,8 @@ validated by round-tripping through `project.py`.
 """
 from __future__ import annotations
 
+import json
+
 import dataclasses
 from typing import Any
 
@@ -152,7 +154,34 @@ def unary_op(o: dict) -> Any:
         from lsst.daf.relation import Identity
 
         return Identity()
+    if k == "pjoin":
+        # a resolved partial join as the model writes it: fixed leaf, predicate, common columns, side
+        common = frozenset(tags(o["common"]))
+        return ops.Join(pred(o["p"]), min_columns=common, max_columns=common).partial(fixed_leaf(o["fixed"]), is_lhs=bool(o["lhs"]))
     raise ValueError(f"bad abstract operation {o!r}")
+
+
+_fixed: dict = {}
+
+
+def fixed_leaf(t: dict):
+    """The real relation for a fixed join operand of the model (a leaf F1..F4 of an iteration engine,
+    possibly under unary operations)."""
+    from lsst.daf.relation import LeafRelation, UnaryOperationRelation, iteration
+
+    if t["k"] == "un":
+        key = json.dumps(t, sort_keys=True)
+        if key not in _fixed:
+            target = fixed_leaf(t["t"])
+            op = unary_op(t["op"])
+            _fixed[key] = UnaryOperationRelation(operation=op, target=target, columns=frozenset(op.applied_columns(target)))
+        return _fixed[key]
+
+    key = (t["id"], tuple(sorted(t["cols"])))
+    if key not in _fixed:
+        eng = _fixed.setdefault("eng", iteration.Engine(name="it1"))
+        _fixed[key] = LeafRelation(eng, tags(t["cols"]), iteration.RowSequence([]), name=t["id"], min_rows=0, max_rows=None)
+    return _fixed[key]
 
 
 def row(r, cols=None) -> dict:
